@@ -475,8 +475,14 @@ Section MapLoop.
 End MapLoop.
 
 (* decoderImpl.decodeValue on a pointer to a value of type t.
-   sh, mx: the current reader; v, pend: its state. *)
-Fixpoint dec (t : ty) (sh : bool) (mx : N) (v : bytes) (pend : N) {struct t} : res :=
+   sh, mx: the current reader; v, pend: its state.
+   pre = false: the current code — ErrNilValue from a struct field is reported as
+                ErrInvalidFormat (commit 9a1f237);
+   pre = true : the code before that commit — ErrNilValue escapes from the Struct case
+                with the struct's list reader still open (kept as the refuted variant). *)
+Section Dec.
+Variable pre : bool.
+Fixpoint dec_gen (t : ty) (sh : bool) (mx : N) (v : bytes) (pend : N) {struct t} : res :=
   match t with
   | TUint w => of_bytes (read_bytes sh mx v) v pend (fun b => option_map VUint (to_uint w b))
   | TInt w => of_bytes (read_bytes sh mx v) v pend (fun b => option_map VInt (to_int w b))
@@ -497,7 +503,7 @@ Fixpoint dec (t : ty) (sh : bool) (mx : N) (v : bytes) (pend : N) {struct t} : r
       match drain pend v with
       | None => RErr
       | Some v' =>
-          match dec t' sh mx v' 0 with
+          match dec_gen t' sh mx v' 0 with
           | ROk x (v'', p'') =>
               match drain p'' v'' with
               | Some v3 => ROk x (v3, 0)
@@ -515,7 +521,7 @@ Fixpoint dec (t : ty) (sh : bool) (mx : N) (v : bytes) (pend : N) {struct t} : r
           let cv := child_view sz r in
           let csh := child_short sz r in
           let cmx := N.min mx sz in
-          match loop_items (dec t' csh cmx) (zero t') (S (length cv)) cv 0 with
+          match loop_items (dec_gen t' csh cmx) (zero t') (S (length cv)) cv 0 with
           | LOk l _ => close_ok csh sz r (VList (Some l))
           | LNil _ => RErr
           | LErr => RErr
@@ -531,7 +537,7 @@ Fixpoint dec (t : ty) (sh : bool) (mx : N) (v : bytes) (pend : N) {struct t} : r
           let cv := child_view sz r in
           let csh := child_short sz r in
           let cmx := N.min mx sz in
-          match loop_upto (dec t' csh cmx) (zero t') n cv 0 with
+          match loop_upto (dec_gen t' csh cmx) (zero t') n cv 0 with
           | LOk l _ => close_ok csh sz r (VArray l)
           | LNil _ => RErr
           | LErr => RErr
@@ -547,9 +553,9 @@ Fixpoint dec (t : ty) (sh : bool) (mx : N) (v : bytes) (pend : N) {struct t} : r
           let cv := child_view sz r in
           let csh := child_short sz r in
           let cmx := N.min mx sz in
-          match loop_fields (map (fun t' => (dec t' csh cmx, zero t')) ts) cv 0 with
+          match loop_fields (map (fun t' => (dec_gen t' csh cmx, zero t')) ts) cv 0 with
           | LOk l _ => close_ok csh sz r (VStruct l)
-          | LNil (rest, _) => RNil (abandon sz r cv rest)
+          | LNil (rest, _) => if pre then RNil (abandon sz r cv rest) else RErr
           | LErr => RErr
           | LFuel => RFuel
           end
@@ -563,7 +569,7 @@ Fixpoint dec (t : ty) (sh : bool) (mx : N) (v : bytes) (pend : N) {struct t} : r
           let cv := child_view sz r in
           let csh := child_short sz r in
           let cmx := N.min mx sz in
-          match loop_map (dec k csh cmx) (dec t' csh cmx) (zero t') (S (length cv)) [] cv 0 with
+          match loop_map (dec_gen k csh cmx) (dec_gen t' csh cmx) (zero t') (S (length cv)) [] cv 0 with
           | LOk m _ => close_ok csh sz r (VMap (Some m))
           | LNil _ => RErr
           | LErr => RErr
@@ -571,17 +577,22 @@ Fixpoint dec (t : ty) (sh : bool) (mx : N) (v : bytes) (pend : N) {struct t} : r
           end
       end
   | TPtr t' =>
-      match dec t' sh mx v pend with
+      match dec_gen t' sh mx v pend with
       | ROk x s => ROk (VPtr (Some x)) s
       | RNil s => ROk (VPtr None) s
       | o => o
       end
   end.
+End Dec.
+
+Definition dec := dec_gen false.
+Definition dec_pre := dec_gen true.
 
 (* bytesWrapper.UnmarshalFromBytes(bs, &x) with x of type t, on a clean decoder:
    ROk x (rest, pend): accepted, rest returned; pend > 0 means the pooled decoder goes
    back dirty (its next use first discards pend bytes of the next input). *)
 Definition unmarshal (t : ty) (bs : bytes) : res := dec t false (len bs) bs 0.
+Definition unmarshal_pre (t : ty) (bs : bytes) : res := dec_pre t false (len bs) bs 0.
 
 (* bytesWrapper.MarshalToBytes(&x) *)
 Definition marshal (v : value) : bytes := enc v.
